@@ -1,14 +1,16 @@
-(* C45, state variables, generator as found: the completion skips the container the symbols are written from *)
-From Coq Require Import String List.
+(* C45, state variables, front-end / generator as found: the completion skips the container the symbols are written from *)
+From Coq Require Import String List ZArith Bool Arith Sorted.
 From C45 Require Import C45Model C45Spec C45Proofs.
+Import ListNotations.
+Local Open Scope string_scope.
 Local Open Scope list_scope.
 Theorem C45_state_variables_inherit_glossary_bounds_refuted : forall vr, persistent_not_completed vr = true ->
   exists g d, dkind d = Behaviour /\
-              ~ Forall2 (scalar_faithful g (dunit d)) (dsvs d ++ dasvs d) (t_isvs (symbols vr g d)).
-Proof. intros vr F. exists w3_g, w3. split; [reflexivity | exact (d3_refuted vr F)]. Qed.
+              ~ Forall2 (scalar_faithful g (dunit d)) (dsl_svs (ddsl d) (dsvs d) ++ dasvs d) (t_isvs (symbols vr g d)).
+Proof. exact d3_refuted_ex. Qed.
 Print Assumptions C45_state_variables_inherit_glossary_bounds_refuted.
 Theorem C45_state_variables_inherit_glossary_bounds_once_repaired : forall vr g d,
   persistent_not_completed vr = false -> dkind d = Behaviour ->
-  Forall2 (scalar_faithful g (dunit d)) (dsvs d ++ dasvs d) (t_isvs (symbols vr g d)).
+  Forall2 (scalar_faithful g (dunit d)) (dsl_svs (ddsl d) (dsvs d) ++ dasvs d) (t_isvs (symbols vr g d)).
 Proof. exact d3_holds. Qed.
 Print Assumptions C45_state_variables_inherit_glossary_bounds_once_repaired.
